@@ -129,7 +129,13 @@ func init() {
 			}
 			return ConstU(uint64(vals[0]), 64), true
 		}
-		if r, ok := restrict[name]; ok {
+		occ := st.nameCnt["len-occ:"+name]
+		st.nameCnt["len-occ:"+name] = occ + 1
+		r, ok := restrict[fmt.Sprintf("%s#%d", name, occ)] // restriction of the occ-th call only
+		if !ok {
+			r, ok = restrict[name]
+		}
+		if ok {
 			var keep []int
 			for _, v := range vals {
 				if r[v] {
